@@ -413,8 +413,12 @@ func (x *Exec) merge(in []mergeEdge, tag string) (*State, Term) {
 		for _, e := range in {
 			v, ok := e.st.cells[k]
 			if !ok {
-				missing = true
-				break
+				if ks, isStr := k.(string); isStr && strings.HasPrefix(ks, "calls:") {
+					v = IntLit(0) // a ghost call counter that was never incremented on this path
+				} else {
+					missing = true
+					break
+				}
 			}
 			vals = append(vals, v)
 		}
